@@ -45,7 +45,8 @@ def clean_atoms(name, n):
 def under(p, Rt):
     """p == R or p lies beneath R (string level); R ending in a separator is '/' (or POSIX '//')"""
     if bool(text.ends(Rt, '/')):
-        return text.starts(p, Rt)
+        # the root resolves to '/' (or POSIX '//', which names the same directory): everything absolute is beneath it
+        return text.starts(p, '/')
     return Or(p == Rt, text.starts(p, Rt + '/'))
 
 
